@@ -139,6 +139,11 @@ func CacheConcurrent(h *vsched.H) {
 		}
 		all = append(all, recs[ti]...)
 	}
+	// the state the tasks leave behind is part of the history: one more query after everything returned
+	fin := &CacheOpRec{Task: len(scripts), Op: OpFindAll, Call: h.Stamp()}
+	fin.Result = applyCacheOp(c, ce, OpFindAll)
+	fin.Ret = h.Stamp()
+	all = append(all, fin)
 	describe := func() string {
 		var ss []string
 		for _, r := range all {
@@ -155,12 +160,17 @@ func CacheConcurrent(h *vsched.H) {
 			}
 			if n > capacity {
 				h.Fail("C15/a query shows more than capacity events", describe())
+				h.Fail("C04/concurrent insertions: more events retained than the capacity", describe())
 			}
 			if strings.Contains(r.Result, short(ce.v1.ID)) && strings.Contains(r.Result, short(ce.v2.ID)) {
 				h.Fail("C15/a query shows two versions of one address", describe())
+				h.Fail("C04/concurrent insertions: two versions of one address retained", describe())
 			}
 			if strings.Contains(r.Result, short(ce.r.ID)) && strings.Contains(r.Result, short(ce.del.ID)) {
 				h.Fail("C15/a query shows an event together with a retained deletion request of its author referencing it", describe())
+				// the same observation under the properties that state it for every history
+				h.Fail("C05/concurrent insertions: an event is served together with a retained deletion request of its author referencing it", describe())
+				h.Fail("C04/concurrent insertions: an event suppressed by a retained deletion request of its author was stored", describe())
 			}
 		}
 	}
